@@ -169,6 +169,12 @@ def bounded(run, tier):
                   ('for (a; b%s) ;' % lt, None, 'no insertion in a for header'),
                   ('if (a)%selse b;' % lt, None, 'no insertion that yields an empty statement'),
                   ('while (a)%s' % lt, None, 'no insertion that yields an empty statement')]
+    # no line terminator between the two tokens: a token that itself spans lines (string continuation), a single-line comment,
+    # or mere white space does not license an insertion
+    for sep in (' ', '\t', ' /* c */ ', '\xa0'):
+        for first in ('x = "a\\\nb"', "s = 'one \\\r\ntwo'", 'x = "a\\\u2028b"', 'x = 1', 'a = b', 'f()'):
+            cases.append(('%s%sy = 2' % (first, sep), None, 'no insertion without a line terminator between the tokens'))
+            cases.append(('var q = %s%svar t' % (first.split('= ', 1)[-1], sep), None, 'no insertion without a line terminator between the tokens'))
     for src, expect, what in cases:
         n += 1
         got = parse(src)
